@@ -221,7 +221,7 @@ def eval_dispatch():
                 break
     both = 1 if (" bmi2" in flags and " adx" in flags) else 0
     msgs = []
-    if L.f("vk_cpu_bmi2_adx")() and not both:
+    if L.f("vk_cpu_bmi2_adx")() == 1 and not both:
         msgs.append("cpu_supports_bmi2_adx() = 1 but /proc/cpuinfo does not list bmi2 and adx")
     # a fresh process: the selection made by the static initialiser
     code = "import sys; sys.path.insert(0, %r); from vlib import ffi; print(ffi.lib('asm').f('vk_dispatch')(-1))" % build.VERIF
